@@ -200,6 +200,18 @@ CLAIMED = {
              "passed as numbers; the induction over steps is the step model of C01/C02/C13 (function of the dimensionless inputs).",
         technique="Coq field-algebra proofs + vm_compute correspondence of scale factors + unit-twin runs",
         design="7/C08"),
+    "C09": dict(
+        text="PARTIAL. Coq theorems: any schedule of a prange kernel whose iterations write only their own row (any permutation, "
+             "any interleaving at iteration granularity, any initial content of the np.empty buffer) yields the sequential "
+             "result and overwrites every cell; the random sample times of the current validation cannot change the verdict "
+             "for a constant current function; get_edges is a function of the multiset of triangle edges (triangle order and "
+             "vertex rotation/orientation irrelevant). Measured (not provable): fresh-process runs with NUMBA_NUM_THREADS in "
+             "{1,2,4,16}, different output directories and PYTHONHASHSEEDs give bit-identical mesh arrays, datasets and "
+             "bookkeeping (sha256; timestamps excluded), for screening on/off, adaptive on/off, time-dependent drive.",
+        note="Coq kernel, no axioms; compiler-level reassociation under fastmath, BLAS/SuperLU determinism and dict ordering are "
+             "runtime behaviour the model cannot exhibit.",
+        technique="Coq proofs of schedule independence + fresh-process bit-identity measurement",
+        design="7/C09"),
 }
 
 PENDING_REASON = "check not built yet in this session (planned, see DESIGN.md section 7); not claimed until it runs"
